@@ -3,7 +3,7 @@
 # repository's own dependencies) and /repo, plus crosshair-tool / z3-solver / cvc5 from the offline wheelhouse.
 set -e
 cd "$(dirname "$0")"
-V=/verif/.venv
+V="$(pwd)/.venv"
 if [ -x "$V/bin/python" ] && "$V/bin/python" -c "import crosshair, z3, codelimit" 2>/dev/null; then
   echo "setup: $V already usable"; exit 0
 fi
